@@ -307,6 +307,10 @@ func (s *KVSnapshot) BatchGetWithTier(ctx context.Context, keys [][]byte, readTi
 	// Create a map to collect key-values from region servers.
 	var mu sync.Mutex
 	var emptyCommitTSKey []byte
+	// The async API gives up waiting when the caller's context ends, while a worker that retries one of the batches
+	// may still be running: it must not write into the result after this call has returned (m is the named result
+	// and is set to nil on the error paths).
+	collected, collecting := m, true
 	err = s.batchGetKeysByRegions(bo, keys, readTier, config.GetGlobalConfig().EnableAsyncBatchGet, opt, func(k []byte, v kv.ValueEntry) {
 		// when read buffer tier, empty value means a delete record, should also collect it.
 		if v.IsValueEmpty() && readTier != BatchGetBufferTier {
@@ -314,12 +318,17 @@ func (s *KVSnapshot) BatchGetWithTier(ctx context.Context, keys [][]byte, readTi
 		}
 
 		mu.Lock()
-		m[string(k)] = v
-		if returnCommitTS && emptyCommitTSKey == nil && v.CommitTS == 0 {
-			emptyCommitTSKey = k
+		if collecting {
+			collected[string(k)] = v
+			if returnCommitTS && emptyCommitTSKey == nil && v.CommitTS == 0 {
+				emptyCommitTSKey = k
+			}
 		}
 		mu.Unlock()
 	})
+	mu.Lock()
+	collecting = false
+	mu.Unlock()
 	s.recordBackoffInfo(bo)
 	if err != nil {
 		return nil, err
